@@ -55,7 +55,7 @@ Definition gst_eqb (a c : gst) : bool :=
 
 (* ---------- tau successors ---------- *)
 Definition conn_taus (i : nat) : list label :=
-  [TRegister i; TChkConn i; THsFail i; TChkReq i; TDecide i; TConnRefuse i; TSilentClose i; TSilentCloseC i; TDec i; TDelete i].
+  [TRegister i; TChkConn i; THsFail i; TChkReq i; TDecide i; TConnRefuse i; TSilentClose i; TDec i; TDelete i].
 Definition all_taus (g : gst) : list label :=
   [TSvChk; TSvErr; TSdLock; TSdOut true; TSdOut false; TClLock; TClOut] ++
   flat_map conn_taus (seq 0 (length (conns g))).
